@@ -6,6 +6,7 @@ import (
 	"math/rand"
 	"net"
 	"os"
+	"runtime"
 	"strings"
 	"sync"
 	"sync/atomic"
@@ -625,4 +626,71 @@ func trimDigits(s string) string {
 		s = s[:70]
 	}
 	return s
+}
+
+// ---------------------------------------------------------------------------------------
+// Both directions of the connection fail at the same moment
+// ---------------------------------------------------------------------------------------
+
+// doubleFailure: the send goroutine is blocked in a write (network stall) and the receive
+// goroutine in a read when the connection breaks in both directions at once. The error
+// must be reported exactly once, and what was delivered before stays a gap-free beginning.
+func doubleFailure(c *core.Case) {
+	run, r := c.Run, c.R
+	cfg := &mconnCfg{Payload: 1 + r.Intn(1024), FlushUs: 1, Rate: 0, Secret: r.Intn(2) == 0, Chunk: []int{0, 1 + r.Intn(2000)}[r.Intn(2)]}
+	cfg.Channels = []chanSpec{{ID: 0x60, Priority: 1, SendQ: 2, RecvCap: 3000, RecvBuf: 64}, {ID: 0x61, Priority: 3, SendQ: 1, RecvCap: 3000, RecvBuf: 64}}
+	p, ok := startPair(c, cfg, cfg)
+	if !ok {
+		return
+	}
+	defer p.shutdown()
+	var sent []*sendRec
+	n := 1 + r.Intn(6)
+	for i := 0; i < n; i++ {
+		p.a.send(0, cfg.Channels[r.Intn(2)], uint32(i), 16+r.Intn(2000), false, &sent)
+	}
+	if !p.b.waitCount(n, watchdog) {
+		run.Inconclusive(fmt.Sprintf("watchdog: %s:%d: warm-up messages not delivered", c.Group, c.I))
+		return
+	}
+	p.d.ab.setGate(true)
+	for i := 0; i < 3; i++ {
+		p.a.send(0, cfg.Channels[r.Intn(2)], uint32(100+i), 16+r.Intn(2000), true, &sent)
+	}
+	if !p.d.ab.waitBlockedWriter(watchdog) {
+		run.Inconclusive(fmt.Sprintf("watchdog: %s:%d: the send goroutine never blocked at the stalled network", c.Group, c.I))
+		return
+	}
+	// the connection breaks: blocked write and blocked read of side a fail together
+	p.d.closeAll()
+	if !p.a.waitErr(watchdog) {
+		run.Inconclusive(fmt.Sprintf("watchdog: %s:%d: the broken connection was never reported", c.Group, c.I))
+		return
+	}
+	// give the second goroutine the chance to report too: it was woken by the same event; wait for the
+	// connection's own quiescence signal (both routines leave after Stop), observable as a refused send
+	for i := 0; i < 2000 && p.a.mc.IsRunning(); i++ {
+		runtime.Gosched()
+	}
+	for i := 0; i < 200; i++ {
+		runtime.Gosched()
+	}
+	run.Eval(1)
+	recvd, berrs, _ := p.b.snapshot()
+	_, aerrs, _ := p.a.snapshot()
+	wit := map[string]interface{}{"config": cfg, "sent": sent, "delivered": trimDel(recvd), "errors_a": aerrs, "errors_b": berrs}
+	if e := panicRecovered(append(append([]string{}, aerrs...), berrs...)); e != "" {
+		c.Violation("mconn:panic-recovered", "a connection goroutine panicked: "+firstLine(e), wit)
+		return
+	}
+	if len(aerrs) != 1 || len(berrs) > 1 {
+		c.Violation("mconn:onerror-count", fmt.Sprintf("both directions failed at once: onError was called %d times on the side whose send and receive goroutines were both blocked, %d times on the other", len(aerrs), len(berrs)), wit)
+		return
+	}
+	if v := checkDirection(sent, recvd, cfg.Channels, false, true); v != nil {
+		c.Violation(v.key, "before a double failure: "+v.what, wit)
+		return
+	}
+	run.Count("mconn_double_failures", 1)
+	run.Nontrivial(fmt.Sprint("double-failure", c.I))
 }
